@@ -119,6 +119,19 @@ CHECKS = {
         note="Keys are projected by the driver from public accessors (calendar ordinal, day number, nanoseconds...); assigning to existing public properties must fail, adding unrelated new attributes is not considered mutation.",
         technique="TLA+ equality/order laws checked by TLC + TLC trace validation of relation tables over value triples",
     ),
+    "C13": dict(
+        category="model_checking",
+        text=("conc/YearStartCache.tla (slot + validator cache, lock-free, line-level steps), LazyZoneMap.tla (check-load-store with "
+              "and without a lock) and LraCache.tla (locked least-recently-added cache) are explored by TLC over all interleavings "
+              "of 2-3 threads, with negative configurations (key span beyond the validator, lock removed) as non-vacuity; on the real "
+              "package, adversarial query orders (years 1024 apart in every calendar, instants 512x32 days apart through caching "
+              "zones, permuted provider lookups, more cultures than the format-info cache holds) are compared with cold-cache "
+              "evaluations and Calendars.tla, and TLC-simulated two-thread schedules are enforced line by line on a shared "
+              "calculator and on a fresh provider."),
+        design_ref="DESIGN.md section 5 C13",
+        note="Schedules are enforced at Python line granularity for two threads; free-running many-thread stress is not part of the verdict.",
+        technique="TLA+ cache/lock models checked by TLC over all interleavings + schedule-enforced replay on real threads + TLC trace validation",
+    ),
     "C14": dict(
         category="model_checking",
         text=("NzdCodec.tla specifies every documented encoding (varint, zig-zag, 4-way milliseconds with its canonical choice, "
